@@ -140,6 +140,19 @@ def small_chunks():
 
 
 @st.composite
+def wcap_tape(draw, total, p_none=0.0):
+    """Per-call write capacities of the link (cyclic, 0 = unlimited); bounded so that a case needs at most ~3000 write calls."""
+    if p_none and draw(st.floats(0, 1)) < p_none:
+        return []
+    w = draw(st.one_of(st.just([]), st.lists(st.one_of(st.sampled_from([1, 2, 23, 24, 25, 4096, 0]), st.integers(1, 100000)), min_size=1, max_size=6),
+                       st.lists(st.sampled_from([262144, 131072, 65536, 100000, 0]), min_size=2, max_size=4)))
+    if w and total > 8000:
+        need = total // 3000 + 1
+        w = [x if x == 0 else max(x, need) for x in w]
+    return w
+
+
+@st.composite
 def session(draw, max_ops=5, ops_allowed=None, big=True, with_frag=False, with_wcap=False, fail_plans=False):
     m = draw(maxdata())
     sizes = boundary_sizes(m) if big else [0, 1, 2, 100, 2047, 2048, 2049, 5000]
@@ -212,6 +225,8 @@ def session(draw, max_ops=5, ops_allowed=None, big=True, with_frag=False, with_w
         "eager_clse": draw(st.lists(st.booleans(), max_size=4)),
         "dup_clse": draw(st.booleans()),
         "zero_clse_reply": draw(st.booleans()),
+        # protocol version announced in the device's CNXN: adbd since Android 9 says 0x01000001; the host announces 0x01000000, which stays in force
+        "version": draw(st.sampled_from([0x01000000, 0x01000000, 0x01000001, 0x01000001, 1, 0xFFFFFFFF])),
     }
     # keep the number of device packets per case bounded (a few thousand) whatever the drawn sizes
     if dev["recv_sizes"]:
@@ -231,10 +246,7 @@ def session(draw, max_ops=5, ops_allowed=None, big=True, with_frag=False, with_w
     if with_frag:
         tr["frag"] = tame_frag(draw(frag_tape()), total)
     if with_wcap:
-        tr["wcap"] = draw(st.one_of(st.just([]), st.lists(st.one_of(st.sampled_from([1, 2, 23, 24, 25, 4096, 0]), st.integers(1, 100000)), min_size=1, max_size=6)))
-        if tr["wcap"] and total > 8000:
-            need = total // 3000 + 1
-            tr["wcap"] = [w if w == 0 else max(w, need) for w in tr["wcap"]]
+        tr["wcap"] = draw(wcap_tape(total))
     return {
         "api": draw(st.sampled_from(["sync", "async"])),
         "device": dev, "dev_tape": draw(dev_tape(30)), "transport": tr, "connect": {}, "ops": ops,
